@@ -31,7 +31,7 @@ from vf.spec import Z3Ops, P, View, PO, POK, VP, KWO, VK
 from vf.interp import Interp, Inst, IClass
 from vf.harness import VC, mk_sig, mk_call, sig_view, pview, run_unit
 from .common import (clause, REGISTRY, install_concile_summary, sp_view, sp_params, bucket_consistent, sp_fields,
-                     names_distinct_term, name_term, stands_of, ua_denotes)
+                     names_distinct_term, name_term, stands_of, ua_denotes, ua_follows_goal, ua_return_goal)
 
 U = '_signatures.merge'
 UM = '_signatures._Merger.__iter__'
@@ -53,10 +53,10 @@ C_SRC_EXACT = clause(U, 'post:sources_exact', ['C08'], 'B')
 C_DEPTHS = clause(U, 'post:depths_min', ['C08'], 'B')
 C_FRAME = clause(U, 'frame:inputs_unchanged', ['C16'], 'B')
 C_FRESH = clause(U, 'frame:fresh_sources', ['C16'], 'B')
-CM_BC = clause(UM, 'post:bucket_consistent', ['C01', 'C09'], 'B')
-CM_SOUND_PURE = clause(UM, 'post:sound_pure', ['C01'], 'B')
-CM_SOUND_MIXED = clause(UM, 'post:sound_mixed', ['C01'], 'B')
-CM_ONLY_VE = clause(UM, 'raises:only_ValueError', ['C15'], 'B')
+CM_BC = clause(UM, 'post:bucket_consistent', ['C01', 'C09'], 'B', internal=True)
+CM_SOUND_PURE = clause(UM, 'post:sound_pure', ['C01'], 'B', internal=True)
+CM_SOUND_MIXED = clause(UM, 'post:sound_mixed', ['C01'], 'B', internal=True)
+CM_ONLY_VE = clause(UM, 'raises:only_ValueError', ['C15'], 'B', internal=True)
 
 
 def exc_is(interp, exc, cls_name):
@@ -212,8 +212,9 @@ def merge_vcs(env, want):
                 ok = all(p.kind == s.kind or (s.kind == POK and p.kind in (PO, KWO)) for s in st)
                 out.append(VC(C_META_KIND.full + tag, [], z3.BoolVal(ok), C_META_KIND.props))
             if on(C_UA):
-                h, den = ua_denotes(p._d['upgraded_annotation'], EmptyAnn)
-                out.append(VC(C_UA.full + tag, [], z3.And(h == a.has, z3.Implies(a.has, den == a.val)), C_UA.props))
+                out.append(VC(C_UA.full + tag, [], ua_follows_goal(p, EmptyAnn), C_UA.props))
+        if on(C_UA):
+            out.append(VC(C_UA.full + ':return', [], ua_return_goal(res, infos[0].sig, EmptyAnn), C_UA.props))
         if on(C_META_ORDER):
             ok = True
             pos_res = [p for p in rparams if p.kind in (PO, POK)]
@@ -291,6 +292,8 @@ def merge_vcs(env, want):
 def make_runner(shapes_, want=None, alias_funcs=True, wf_inputs=True):
     """returns (run(ctx, r), env) for merge over input signatures of the given shapes"""
     I = Interp()
+    from vf import world as _world
+    _world.install_externals(I, {})     # eval(expression, f.__globals__) is the uninterpreted evalin
     install_concile_summary(I)
     m = I.module('sigtools._signatures')
     env = {'interp': I}
@@ -345,6 +348,12 @@ def replay(env, vc, model):
     conc = Concretizer(model)
     infos = env['infos']
     sigs = [conc.build_sig(i) for i in infos]
+    import re as _re
+    mstep = _re.search(r'#step(\d+)', vc.name)
+    if mstep and vc.name.startswith(UM):
+        # a clause of the merger step k: its native witness is the fold up to and including that step
+        sigs = sigs[:int(mstep.group(1)) + 1]
+        infos = infos[:len(sigs)]
     call = conc.call(env['call']) if env.get('call') is not None else None
     before = [rt.snapshot_sig(s) for s in sigs]
     oc = rt.run_real(_signatures.merge, *sigs)
@@ -359,6 +368,8 @@ def replay(env, vc, model):
         bad.append(('frame:inputs_unchanged', 'input snapshot differs'))
     short = _short(vc.name)
     key = ':'.join(short.split(':')[:2])
+    if vc.name.startswith(UM):
+        key = key.replace('__iter__/', '')
     hit = [b for b in bad if b[0].startswith(key)]
     status = 'reproduced' if hit else ('other-violation' if bad else 'not-reproduced')
     return dict(status=status, op='merge', inputs=[sig_str(s) for s in sigs], specs=[conc.param_specs(i) for i in infos],
@@ -391,11 +402,12 @@ def sym_sig_data(conc, sig):
 
 
 def real_sig_data(sig, fkey):
+    from vf.concrete import ann_raw
     ps = []
     for p in sig.parameters.values():
         has = p.default is not p.empty
         ahas = p.annotation is not p.empty
-        ps.append((p.name, int(p.kind), has, p.default if has else None, ahas, p.annotation if ahas else None))
+        ps.append((p.name, int(p.kind), has, p.default if has else None, ahas, ann_raw(p.annotation) if ahas else None))
     src = {k: [fkey(f) for f in v] for k, v in sig.sources.items() if k != '+depths'}
     dep = {fkey(f): d for f, d in sig.sources.get('+depths', {}).items()}
     return ps, src, dep
